@@ -2,6 +2,7 @@ package scen
 
 import (
 	"bytes"
+	"encoding/binary"
 	"fmt"
 	cmtcrypto "github.com/cometbft/cometbft/proto/tendermint/crypto"
 	"math/big"
@@ -81,6 +82,8 @@ type c15World struct {
 	lastTS         int64
 	updatesOK      int
 	pendingMembers []*l1Val
+	lastVS         *cmtproto.ValidatorSet // the set of the last recorded refresh, and its members
+	lastMembers    []*l1Val
 	pendingHostile bool // the pending refresh carries a validator whose key cannot be converted
 }
 
@@ -105,6 +108,30 @@ func newC15(r *core.Run, prop string, replicas bool) *c15World {
 	}
 	c.lastTS = c.w.now.UnixNano()
 	return c
+}
+
+// encodeVE is the compressed wire form of a vote extension with the map entries in ascending id order (the
+// generated marshaller walks the Go map, so the byte string - and with compression its length, and with that
+// the transaction's gas - would differ from one replay of the same choices to the next).
+func encodeVE(prices map[uint64][]byte) ([]byte, error) {
+	ids := make([]uint64, 0, len(prices))
+	for id := range prices {
+		ids = append(ids, id)
+	}
+	sort.Slice(ids, func(i, j int) bool { return ids[i] < ids[j] })
+	var bz []byte
+	for _, id := range ids {
+		entry := append([]byte{0x08}, binary.AppendUvarint(nil, id)...)
+		if v := prices[id]; len(v) > 0 {
+			entry = append(entry, 0x12)
+			entry = binary.AppendUvarint(entry, uint64(len(v)))
+			entry = append(entry, v...)
+		}
+		bz = append(bz, 0x0a)
+		bz = binary.AppendUvarint(bz, uint64(len(entry)))
+		bz = append(bz, entry...)
+	}
+	return connectcodec.NewZLibCompressor().Compress(bz)
 }
 
 func (c *c15World) total() int64 {
@@ -144,6 +171,16 @@ func (c *c15World) genRefresh() (node.HostSetUpdate, string) {
 		cp.Power = pw
 		members = append(members, &cp)
 	}
+	same := c.lastVS != nil && r.Chance(1, 4)
+	if same {
+		// the usual light-client update: a newer header, the validator set unchanged
+		vs, members = &cmtproto.ValidatorSet{}, c.lastMembers
+		for _, v := range c.lastVS.Validators {
+			cp := *v
+			vs.Validators = append(vs.Validators, &cp)
+		}
+		n = len(members)
+	}
 	h := c.setH + 1 + int64(r.Intn(5))
 	client := c15Client
 	tag := "higher"
@@ -165,6 +202,9 @@ func (c *c15World) genRefresh() (node.HostSetUpdate, string) {
 	}
 	c.pendingMembers = members
 	c.pendingHostile = false
+	if same {
+		tag += ",same-set"
+	}
 	if tag == "higher" && r.Chance(1, 10) {
 		// one validator of the L1 set uses a key type the L2 cannot convert: no partial set may be recorded
 		vs.Validators[r.Intn(len(vs.Validators))].PubKey = cmtcrypto.PublicKey{}
@@ -187,6 +227,7 @@ func (c *c15World) commitRefresh(up node.HostSetUpdate) {
 			c.set[string(m.Addr)] = m
 		}
 		c.setH = up.Height
+		c.lastVS, c.lastMembers = up.Set, c.pendingMembers
 	}
 }
 
@@ -260,7 +301,7 @@ func (c *c15World) genUpdate() (*opchildtypes.MsgUpdateOracle, []c15Vote, uint64
 			bz, _ := v.GobEncode()
 			ve.Prices[c.pairID(p)] = bz
 		}
-		ext, err := c.veCodec.Encode(ve)
+		ext, err := encodeVE(ve.Prices)
 		if err != nil {
 			panic(err)
 		}
@@ -320,8 +361,8 @@ func (c *c15World) genUpdate() (*opchildtypes.MsgUpdateOracle, []c15Vote, uint64
 	}
 	pricesFor := func() map[string]*big.Int {
 		m := map[string]*big.Int{"TIMESTAMP/NANOSECOND": big.NewInt(ts)}
-		for p, v := range base {
-			if honest || r.Chance(5, 6) {
+		for _, p := range []string{"ATOM/USD", "BTC/USD", "ETH/USD"} { // fixed order: each draw belongs to one pair
+			if v := base[p]; honest || r.Chance(5, 6) {
 				m[p] = new(big.Int).Add(v, big.NewInt(int64(r.Intn(5))))
 			}
 		}
